@@ -14,6 +14,8 @@ W=$((16 / J)); [ $W -lt 2 ] && W=2
 run_one() {
   id="$1"
   prop=$(python3 -c "import json,sys; print(json.load(open('/verif/seeded/$id/meta.json'))['property'])")
+  # a seeded change may be decided by the check of a neighbouring property ("checks": [...] in meta.json)
+  checks=$(python3 -c "import json,sys; m=json.load(open('/verif/seeded/$id/meta.json')); print(' '.join(m.get('checks', [m['property']])))")
   wt=/tmp/sw-$id
   git -C /repo worktree remove --force "$wt" >/dev/null 2>&1
   rm -rf "$wt"
@@ -28,12 +30,19 @@ run_one() {
   # start from the dependency builds of the main caches (same registry crates, same flags)
   [ -d /verif/.cache/mir-target ] && cp -a /verif/.cache/mir-target "$alt/mir-target"
   [ -d /verif/.cache/replay-target ] && cp -a /verif/.cache/replay-target "$alt/replay-target"
-  VERIF_REPO="$wt" VERIF_WORKERS=$W VERIF_BUDGET_S=${SEEDED_BUDGET_S:-3000} ./check "$prop" --tier "${SEEDED_TIER:-quick}" > "$alt/out.txt" 2>&1
-  rc=$?
-  {
-    echo "check=$prop exit=$rc  ($(date -u +%FT%TZ), tier ${SEEDED_TIER:-quick}, worktree of /repo $(git -C /repo rev-parse --short HEAD) + patch)"
-    grep -E "^(VIOLATION|  obligation=|INCONCLUSIVE|C[0-9]+ tier)" "$alt/out.txt" | cut -c1-400 | head -12
-  } > /verif/seeded/$id/check_result.txt
+  : > /verif/seeded/$id/check_result.txt
+  best=0
+  for chk in $checks; do
+    VERIF_REPO="$wt" VERIF_WORKERS=$W VERIF_BUDGET_S=${SEEDED_BUDGET_S:-3000} ./check "$chk" --tier "${SEEDED_TIER:-quick}" > "$alt/out.txt" 2>&1
+    rc=$?
+    {
+      echo "check=$chk exit=$rc  ($(date -u +%FT%TZ), tier ${SEEDED_TIER:-quick}, worktree of /repo $(git -C /repo rev-parse --short HEAD) + patch)"
+      grep -E "^(VIOLATION|  obligation=|INCONCLUSIVE|C[0-9]+ tier)" "$alt/out.txt" | cut -c1-400 | head -12
+    } >> /verif/seeded/$id/check_result.txt
+    [ $rc -eq 1 ] && best=1
+    [ $rc -eq 2 ] && [ $best -eq 0 ] && best=2
+  done
+  rc=$best
   echo "$id $prop exit=$rc"
   git -C /repo worktree remove --force "$wt" >/dev/null 2>&1
   [ -n "${SEEDED_KEEP:-}" ] && cp -r "$alt/evidence" /tmp/evid-$id 2>/dev/null
